@@ -22,6 +22,16 @@ PAYLOADS = [1, None, "x", {"nested": {"deep": [1, {"k": None}]}}, [{"a": 1}, 2],
 FRESH = ["zzExtraProperty", "x-vendor-extension", "zzExtra2"]
 
 
+DECLARED = set()
+
+
+def near_names(pn):
+    import re as _re
+    sn = _re.sub(r"([a-z0-9])([A-Z])", r"\1_\2", _re.sub(r"(.)([A-Z][a-z]+)", r"\1_\2", pn)).lower()
+    out = [sn, pn + "_", pn[:1].upper() + pn[1:], pn.upper(), "_" + pn, pn.lower()]
+    return [x for x in out if x != pn]
+
+
 def extend(mmv, t, j, rng, mode, depth=0):
     """add fresh properties at object nodes that are matched against structures / literals (not inside LSPAny payloads or maps)"""
     k = t["kind"]
@@ -39,6 +49,14 @@ def extend(mmv, t, j, rng, mode, depth=0):
             if mode == "all" or (mode == "top" and depth == 0) or (mode == "one" and rng.random() < 0.3):
                 for name in rng.sample(FRESH, rng.choice([1, 2])):
                     r[name] = rng.choice(PAYLOADS)
+                # adversarial fresh names: undeclared spellings of a DECLARED property of this very object (snake_case, trailing
+                # underscore, other capitalisation), carrying a different valid value of that property's type
+                if ps and rng.random() < 0.7:
+                    pn = rng.choice(sorted(ps))
+                    for cand in near_names(pn):
+                        if cand not in ps and cand not in r and cand not in DECLARED:
+                            r[cand] = mmv.rand(ps[pn]["type"], rng, 2, 2)
+                            break
                 if rng.random() < 0.5:   # extras need not come last
                     items = list(r.items())
                     rng.shuffle(items)
@@ -100,6 +118,9 @@ def run(chk):
     chk.trusted = V.STD_TRUSTED + ["translators x_mm, x_pkg", "converter model LSP.Sem validated by the correspondence stream",
                                    "'fresh' = a name the metamodel declares nowhere (C15.v declared_names)"]
     mmv = mmlib.MMView()
+    DECLARED.update({"jsonrpc", "id", "method", "params", "result", "error", "code", "message", "data"})
+    for sn in mmv.S:
+        DECLARED.update(p["name"] for p in mmv.S[sn]["properties"])
     with V.build_lock():
         ok, fails = CS.build_conv(chk)
         if ok:
